@@ -194,3 +194,41 @@ def helper_stage_calls(prog, body, suffixes):
     cfg = Cfg(body)
     out.sort(key=lambda x: sum(1 for y in out if cfg.dominates(y[1], x[1])))
     return out
+
+
+def captured_operand(prog, closure, cpv, op):
+    """if `op` inside `closure` is (a projection of) a captured variable: (parent function, the operand the parent put
+    into the closure for that capture), else None"""
+    from .util import place_of
+    pl = place_of(op)
+    idxs = set()
+    if pl and pl[0] == 1:
+        for e in pl[1:]:
+            if isinstance(e, list) and e[0] == "f":
+                idxs.add(e[1])
+                break
+    for o in cpv.trace_operand(op):
+        x = o
+        while isinstance(x, tuple) and x[0] == "field":
+            if x[1] == ("arg", 1):
+                idxs.add(x[2])
+            x = x[1]
+        if isinstance(o, tuple) and o[0] == "upvar":
+            idxs.add(o[1])
+    if len(idxs) != 1:
+        return None
+    idx = next(iter(idxs))
+    parent = prog.fns.get(closure.get("parent") or "")
+    if parent is None:
+        # a closure of a helper that was spliced into its caller
+        for g in prog.fns.values():
+            if (closure.get("parent") or "") in g.d.get("inlined", []):
+                parent = g
+                break
+    if parent is None:
+        return None
+    for b in parent.blocks:
+        for sx in b["s"]:
+            if sx["k"] == "assign" and sx["rv"]["k"] == "agg" and sx["rv"].get("agg") == "closure" and sx["rv"].get("name") == closure.name and idx < len(sx["rv"]["ops"]):
+                return parent, sx["rv"]["ops"][idx]
+    return None
